@@ -88,7 +88,9 @@ Contract4(c, a, s) ==
               s.lh[l] = Max({NodeOf(s, s.layers[l][j])[8] : j \in DOMAIN s.layers[l]}), "P4_LayerHeight")
     \cup If((Len(s.nodes) > 1 /\ s.exact = 1) => \A l \in DOMAIN s.layers : \A j \in DOMAIN s.layers[l] :
               NodeOf(s, s.layers[l][j])[6] = SumSeq([m \in 1..(l - 1) |-> s.lh[m] + Q * c.ls]), "P4_YStacksLayers")
-    \cup If((c.p4 \in SizeAwareP4 /\ s.exact = 1) => \A l \in DOMAIN s.layers : \A j \in 1..(Len(s.layers[l]) - 1) :
+    \* (the network-simplex positioner works on an integer grid: with a fractional NodeSpacing it keeps the ROUNDED centre distance,
+    \* which NSPositionOps predicts exactly; the plain inequality is its contract for integer spacings only)
+    \cup If((c.p4 \in SizeAwareP4 /\ s.exact = 1 /\ (c.p4 = "nspos" => c.nsd = 1)) => \A l \in DOMAIN s.layers : \A j \in 1..(Len(s.layers[l]) - 1) :
               LET u == NodeOf(s, s.layers[l][j]) w == NodeOf(s, s.layers[l][j + 1])
               IN u[5] + u[7] + NSq(c) <= w[5], "P4_NeighboursSeparated")
 
